@@ -1,3 +1,4 @@
+import RactorModel.Lemmas.FailingTransport
 import RactorModel.Lemmas.GenJobMeta
 import RactorModel.Lemmas.GenFrame
 import RactorModel.Lemmas.Frames
@@ -617,6 +618,180 @@ theorem f16_jobopts_ttl_not_roundtripped :
     (decodeMeta (some (encodeMeta ⟨5, some (2 ^ 64 + 1), []⟩))).map (·.ttl) = some (some 1) := by
   decide
 
+/-! ## Round 4, wave 2 -/
+
+/-- an undecodable SERIALIZED message in the loop: one step, whatever the decoder did -/
+theorem processMessage_undecodable (st : ActorSt) (x : Inbox) (hr : st.running = true)
+    (hs : x.serialized = true) (hd : x.decoded = none) :
+    (processMessage st x).running = true ∧ (processMessage st x).handled = st.handled ∧
+    (processMessage st x).droppedPorts = st.droppedPorts + (if x.msg.isCall then 1 else 0) := by
+  cases hdec : x.dec with
+  | ok d => simp [Inbox.decoded, hdec] at hd
+  | err => simp [processMessage, hr, hdec, hs, dropPort]
+  | panic => simp [processMessage, hr, hdec, hs, dropPort]
+
+/-- (an undecodable message harms nobody — over the message LOOP, where harm is possible) In the
+model of `process_message` / `handle_message` with both of its branches — a decoder failure on a
+LOCAL message (`from_boxed(msg)?`) and a failing `handle` DO end the loop (`running := false`, see
+`local_decode_failure_stops_the_actor`) — for every sequence of messages in which `handle` never
+fails and every decoder failure (an `Err` or a panic) is on a serialized message: the actor is
+still running, `handle` was called with exactly the decodable messages in order, and exactly the
+undecodable / answered-by-the-probe calls had their port dropped (their callers see an absence). -/
+theorem undecodable_serialized_messages_never_stop_the_actor (xs : List Inbox)
+    (hh : ∀ x ∈ xs, x.hres = .ok) (hl : ∀ x ∈ xs, x.serialized = false → x.decoded ≠ none) :
+    (messageLoop {} xs).running = true ∧ (messageLoop {} xs).handled = xs.filterMap Inbox.decoded ∧
+    (messageLoop {} xs).droppedPorts = xs.countP (·.msg.isCall) := by
+  suffices h : ∀ st : ActorSt, st.running = true →
+      (messageLoop st xs).running = true ∧ (messageLoop st xs).handled = st.handled ++ xs.filterMap Inbox.decoded ∧
+      (messageLoop st xs).droppedPorts = st.droppedPorts + xs.countP (·.msg.isCall) by
+    simpa using h {} rfl
+  induction xs with
+  | nil => intro st hr; simp [messageLoop, hr]
+  | cons x xs ih =>
+    intro st hr
+    have hx := hh x (by simp)
+    have ih' := ih (fun y hy => hh y (by simp [hy])) (fun y hy => hl y (by simp [hy]))
+    simp only [messageLoop, List.foldl_cons] at ih' ⊢
+    cases hdec : x.dec with
+    | ok d =>
+      have h1 : processMessage st x =
+          { dropPort st x.msg with handled := st.handled ++ [d] } := by
+        simp [processMessage, hr, hdec, hx]
+      obtain ⟨a, b, c⟩ := ih' (processMessage st x) (by rw [h1]; simpa [dropPort] using hr)
+      refine ⟨a, ?_, ?_⟩
+      · rw [b, h1]; simp [Inbox.decoded, hdec, dropPort]
+      · rw [c, h1]; by_cases hc : x.msg.isCall = true <;> simp [dropPort, hc, List.countP_cons] <;> omega
+    | err =>
+      have hs : x.serialized = true := by
+        cases hs : x.serialized with
+        | true => rfl
+        | false => exact absurd (by simp [Inbox.decoded, hdec]) (hl x (by simp) hs)
+      obtain ⟨p1, p2, p3⟩ := processMessage_undecodable st x hr hs (by simp [Inbox.decoded, hdec])
+      obtain ⟨a, b, c⟩ := ih' (processMessage st x) p1
+      refine ⟨a, ?_, ?_⟩
+      · rw [b, p2]; simp [Inbox.decoded, hdec]
+      · rw [c, p3]; by_cases hc : x.msg.isCall = true <;> simp [hc, List.countP_cons] <;> omega
+    | panic =>
+      have hs : x.serialized = true := by
+        cases hs : x.serialized with
+        | true => rfl
+        | false => exact absurd (by simp [Inbox.decoded, hdec]) (hl x (by simp) hs)
+      obtain ⟨p1, p2, p3⟩ := processMessage_undecodable st x hr hs (by simp [Inbox.decoded, hdec])
+      obtain ⟨a, b, c⟩ := ih' (processMessage st x) p1
+      refine ⟨a, ?_, ?_⟩
+      · rw [b, p2]; simp [Inbox.decoded, hdec]
+      · rw [c, p3]; by_cases hc : x.msg.isCall = true <;> simp [hc, List.countP_cons] <;> omega
+
+/-- the branch is real: the SAME decoder failure on a local message, or a failing `handle`, ends the
+message loop, and nothing is handled afterwards -/
+theorem local_decode_failure_stops_the_actor (st : ActorSt) (m : SMsg) (rest : List Inbox) (hr : st.running = true) :
+    (processMessage st ⟨false, m, .err, .ok⟩).running = false ∧
+    (processMessage st ⟨false, m, .panic, .ok⟩).running = false ∧
+    (∀ d, (processMessage st ⟨true, m, .ok d, .err⟩).running = false) ∧
+    (messageLoop (processMessage st ⟨false, m, .err, .ok⟩) rest).handled = st.handled := by
+  refine ⟨by simp [processMessage, hr, dropPort], by simp [processMessage, hr, dropPort],
+    fun d => by simp [processMessage, hr, dropPort], ?_⟩
+  have h0 : (processMessage st ⟨false, m, .err, .ok⟩).running = false := by simp [processMessage, hr, dropPort]
+  have h1 : (processMessage st ⟨false, m, .err, .ok⟩).handled = st.handled := by simp [processMessage, hr, dropPort]
+  generalize processMessage st ⟨false, m, .err, .ok⟩ = t at h0 h1
+  induction rest generalizing t with
+  | nil => exact h1
+  | cons x xs ih =>
+    simp only [messageLoop, List.foldl_cons]
+    have : processMessage t x = t := by simp [processMessage, h0]
+    rw [this]; exact ih t h0 h1
+
+example : (messageLoop {} [⟨true, .cast "x" [], .err, .ok⟩, ⟨true, .call "y" [], .panic, .ok⟩,
+    ⟨true, .cast "A" [], .ok ("A", []), .ok⟩]).running = true := by decide
+example : (messageLoop {} [⟨false, .cast "x" [], .err, .ok⟩, ⟨true, .cast "A" [], .ok ("A", []), .ok⟩]).handled = [] := by decide
+
+/-- (`reply_port_position` connected to `enum_roundtrip`) A tuple-style `#[rpc]` variant DECLARED
+with `fields.length + 1` fields, the reply port (`none`) at ANY position `idx`: the wire variant is
+the declaration without the port (`dataFieldsOf`, what `parse_rpc_variant` computes); the sender's
+constructor arguments `args` have the port at `idx` (`orderedBindings`, what the generated pattern
+binds); the data bindings are packed in declaration order. Then the receiving node decodes the
+message, and the constructor argument list IT builds (`orderedBindings` with its own fresh port) is
+the sender's argument list: every value arrives at its declared position, the port at `idx`. -/
+theorem rpc_variant_roundtrip_any_port_position (vs : List Variant) (tag : String) (fields : List Ty)
+    (vals : List Val) (idx : Nat) (hidx : idx ≤ fields.length) (hidx' : idx ≤ vals.length) (m : SMsg)
+    (hv : findVariant vs .call tag =
+      some ⟨tag, .call, (dataFieldsOf (orderedBindings none (fields.map some) idx) idx).filterMap id⟩)
+    (hwf : wfFields fields vals = true)
+    (hs : serialize ⟨tag, .call, (dataFieldsOf (orderedBindings none (fields.map some) idx) idx).filterMap id⟩
+      ((dataFieldsOf (orderedBindings none (vals.map some) idx) idx).filterMap id) = some m)
+    (hlen : ∀ bs, pack (encodeFields fields vals) = some bs → bs.length < wordLimit) :
+    ∃ vals', deserialize vs m = some (tag, vals') ∧
+      orderedBindings none (vals'.map some) idx = orderedBindings none (vals.map some) idx ∧
+      (orderedBindings none (vals'.map some) idx)[idx]? = some none := by
+  have hf : (dataFieldsOf (orderedBindings none (fields.map some) idx) idx).filterMap id = fields := by
+    rw [(reply_port_position (fields.map some) none idx (by simpa using hidx)).2.2]; simp
+  have hvv : (dataFieldsOf (orderedBindings none (vals.map some) idx) idx).filterMap id = vals := by
+    rw [(reply_port_position (vals.map some) none idx (by simpa using hidx')).2.2]; simp
+  rw [hf] at hv hs
+  rw [hvv] at hs
+  have := enum_roundtrip vs ⟨tag, .call, fields⟩ vals m hv hwf hs hlen
+  exact ⟨vals, this, rfl, (reply_port_position (vals.map some) none idx (by simpa using hidx')).2.1⟩
+
+/-- (a transport that fails — as a BRANCH of the read loop) `Model/FailingTransport.lean`: the
+transport answers some read — at any byte offset, inside a length header or a payload, with
+anything after it — with an I/O error, and `read_u64` / `read_n_bytes` / `read_network_message` /
+the reader loop propagate it (`?`). For every fragmentation `chunks` of the bytes before the failure
+and everything `rest` after it: the reader's life is exactly what `readFramesIo` describes (so
+`io_error_stops_reader` is a theorem about this reader, no longer a renaming): frames, then
+exactly one error, never reported as a clean EOF (`frame_read_error`, not `channel_closed`), the
+frames decoded before the failure being those of the same bytes followed by EOF; and without a
+failure it is `readFrames`. -/
+theorem reader_over_failing_transport {Msg : Type} (dec : Bytes → Option Msg) (max : Nat) (chunks : List Bytes)
+    (rest : List Piece) :
+    readFramesT dec max (chunks.map .data ++ .fail :: rest) = (readFramesIo dec max chunks true).1 ∧
+    readFramesT dec max (chunks.map .data) = (readFrames dec max chunks).1 ∧
+    stopsAtFirstError (readFramesT dec max (chunks.map .data ++ .fail :: rest)) = true ∧
+    FrameRes.err FrameErr.eof ∉ readFramesT dec max (chunks.map .data ++ .fail :: rest) ∧
+    (∀ e, FrameRes.err e ∈ readFramesT dec max (chunks.map .data ++ .fail :: rest) → stopReason e = "frame_read_error") ∧
+    (∀ m, FrameRes.ok m ∈ readFramesT dec max (chunks.map .data ++ .fail :: rest) ↔
+      FrameRes.ok m ∈ (readFrames dec max chunks).1) ∧
+    readFramesT dec max (chunks.map .data ++ .fail :: rest) = readFramesT dec max ([chunks.flatten].map .data ++ [.fail]) := by
+  have key : ∀ (cs : List Bytes) (r : List Piece),
+      readFramesT dec max (cs.map .data ++ .fail :: r) = (readFramesIo dec max cs true).1 := by
+    intro cs r
+    have h1 := dataLen_tl true r cs
+    have h2 := readFramesLoopT_eq dec max true r (streamLen cs + 1) cs
+    simp only [tl, ↓reduceIte] at h1 h2
+    simp only [readFramesT, h1, h2, readFramesIo, readFrames]
+  have h0 : readFramesT dec max (chunks.map .data) = (readFrames dec max chunks).1 := by
+    have h1 := dataLen_tl false [] chunks
+    have h2 := readFramesLoopT_eq dec max false [] (streamLen chunks + 1) chunks
+    simp only [tl, Bool.false_eq_true, ↓reduceIte, List.append_nil] at h1 h2
+    simp only [readFramesT, h1, h2, readFrames]
+    have : ∀ rs : List (FrameRes Msg), rs.map (ioEnd false) = rs := by
+      intro rs
+      induction rs with
+      | nil => rfl
+      | cons r rs ih =>
+        simp only [List.map_cons, ih]
+        congr 1
+        cases r with
+        | ok m => rfl
+        | err e => cases e <;> rfl
+    exact this _
+  obtain ⟨a, b, c, d, e⟩ := io_error_stops_reader dec max chunks true
+  rw [key chunks rest]
+  refine ⟨rfl, h0, a, d rfl, e, c, ?_⟩
+  rw [key [chunks.flatten] []]
+  exact b
+
+example : readFramesT (fun b => some b) 100 [.data [0, 0, 0, 0, 0, 0, 0, 2, 7], .data [8, 0, 0], .fail, .data [0]] =
+    [.ok [7, 8], .err .io] := by decide
+example : readFramesT (fun b => some b) 100 [.data [0, 0, 0, 0, 0, 0, 0, 2, 7], .data [8, 0, 0]] =
+    [.ok [7, 8], .err .eof] := by decide
+
+/-- E-SRC tie of `Codec.processMessage`: in `handle_message` the serialized branch answers a decoder
+`Err` and a decoder panic with `return Ok(())` (the loop goes on), the local branch propagates with `?`. -/
+theorem extracted_handle_message_branches :
+    Extracted.handleMessageSerializedArms =
+      ["Ok(Ok(message))=>message", "Ok(Err(_))=>{returnOk(());}", "Err(_)=>{returnOk(());}"] ∧
+    Extracted.handleMessageLocalBranch = "TActor::Msg::from_boxed(msg)?" := by decide
+
 end C19
 
 #print axioms C19.int_roundtrip
@@ -657,3 +832,9 @@ end C19
 #print axioms C19.generated_serialize_meta_eq_model
 #print axioms C19.generated_deserialize_meta_eq_model
 #print axioms C19.f16_jobopts_ttl_not_roundtripped
+#print axioms C19.undecodable_serialized_messages_never_stop_the_actor
+#print axioms C19.local_decode_failure_stops_the_actor
+#print axioms C19.rpc_variant_roundtrip_any_port_position
+#print axioms C19.reader_over_failing_transport
+#print axioms C19.extracted_handle_message_branches
+#print axioms C19.processMessage_undecodable
